@@ -55,20 +55,60 @@ type Req struct {
 // Resp is the response type of the test plugins: same shape as Req, distinct type.
 type Resp Req
 
+// Leaf, Mid and NReq form the second request type: NReq has NO reference-kind field of its own (only strings, numbers,
+// struct fields and an array field); every slice, map and pointer sits one struct level down (Inner: Sub.Blob, Sub.Tags),
+// two levels down (Mid.Leaf.*) or inside the elements of an array field (Pair). A copy routine that decides "flat, a plain
+// assignment copies it all" from the direct fields only copies such a value shallowly.
+type Leaf struct {
+	Items []string
+	Notes map[string]string
+	Ptr   *Sub
+	Subs  []Sub
+	Pin   string `coerce:"secure"`
+}
+
+// Mid has no reference-kind field of its own either.
+type Mid struct {
+	Title string
+	Rank  int
+	Leaf  Leaf
+}
+
+// NReq is the "references only in nested structs" request (used by value or by pointer depending on the plugin).
+type NReq struct {
+	Text  string
+	Num   int64
+	Inner Sub    // references one struct level down
+	Mid   Mid    // references two struct levels down
+	Pair  [2]Sub // references inside the elements of an array
+}
+
+// NResp is the response type of the nested-request plugins.
+type NResp NReq
+
 const (
 	plugActVal   = "verif/pc18.ActionValue"   // non-check plugin, value-typed request (Req)
 	plugActPtr   = "verif/pc18.ActionPointer" // non-check plugin, pointer-typed request (*Req)
 	plugCheckVal = "verif/pc18.CheckValue"    // check plugin, value-typed request
 	plugCheckPtr = "verif/pc18.CheckPointer"  // check plugin, pointer-typed request
 	plugCheckNil = "verif/pc18.CheckNil"      // check plugin without request (Req == nil), like the repository's own test CheckPlugin
+
+	plugActNestVal   = "verif/pc18.ActionNestedValue"   // non-check plugin, value-typed NReq
+	plugActNestPtr   = "verif/pc18.ActionNestedPointer" // non-check plugin, *NReq
+	plugCheckNestVal = "verif/pc18.CheckNestedValue"    // check plugin, value-typed NReq
+	plugCheckNestPtr = "verif/pc18.CheckNestedPointer"  // check plugin, *NReq
 )
 
 // reqKind says how the request of an action is typed.
 const (
-	reqValue   = 0
-	reqPointer = 1
-	reqNil     = 2
+	reqValue       = 0 // Req
+	reqPointer     = 1 // *Req
+	reqNil         = 2 // nil (check plugins only)
+	reqNestValue   = 3 // NReq
+	reqNestPointer = 4 // *NReq
 )
+
+var reqKindNames = [...]string{"value", "pointer", "nil", "nested-value", "nested-pointer"}
 
 type plug struct {
 	name  string
@@ -112,6 +152,24 @@ func (p *plug) ValidateReq(req any) error {
 			return fmt.Errorf("%s: Text is empty", p.name)
 		}
 		return nil
+	case reqNestValue:
+		r, ok := req.(NReq)
+		if !ok {
+			return fmt.Errorf("%s: request must be pc18.NReq, got %T", p.name, req)
+		}
+		if r.Text == "" {
+			return fmt.Errorf("%s: Text is empty", p.name)
+		}
+		return nil
+	case reqNestPointer:
+		r, ok := req.(*NReq)
+		if !ok || r == nil {
+			return fmt.Errorf("%s: request must be non-nil *pc18.NReq, got %T", p.name, req)
+		}
+		if r.Text == "" {
+			return fmt.Errorf("%s: Text is empty", p.name)
+		}
+		return nil
 	}
 	return fmt.Errorf("bad plugin kind %d", p.kind)
 }
@@ -122,6 +180,10 @@ func (p *plug) Request() any {
 		return Req{}
 	case reqPointer:
 		return &Req{}
+	case reqNestValue:
+		return NReq{}
+	case reqNestPointer:
+		return &NReq{}
 	}
 	return nil
 }
@@ -132,6 +194,10 @@ func (p *plug) Response() any {
 		return Resp{}
 	case reqPointer:
 		return &Resp{}
+	case reqNestValue:
+		return NResp{}
+	case reqNestPointer:
+		return &NResp{}
 	}
 	return nil
 }
@@ -148,17 +214,26 @@ func pluginName(check bool, kind int) string {
 			return plugCheckVal
 		case reqPointer:
 			return plugCheckPtr
+		case reqNestValue:
+			return plugCheckNestVal
+		case reqNestPointer:
+			return plugCheckNestPtr
 		default:
 			return plugCheckNil
 		}
 	}
-	if kind == reqPointer {
+	switch kind {
+	case reqPointer:
 		return plugActPtr
+	case reqNestValue:
+		return plugActNestVal
+	case reqNestPointer:
+		return plugActNestPtr
 	}
 	return plugActVal
 }
 
-// newRegistry returns a fresh registry holding the five test plugins.
+// newRegistry returns a fresh registry holding the nine test plugins.
 func newRegistry() *registry.Register {
 	reg := registry.New()
 	for _, p := range []*plug{
@@ -167,6 +242,10 @@ func newRegistry() *registry.Register {
 		{name: plugCheckVal, check: true, kind: reqValue},
 		{name: plugCheckPtr, check: true, kind: reqPointer},
 		{name: plugCheckNil, check: true, kind: reqNil},
+		{name: plugActNestVal, kind: reqNestValue},
+		{name: plugActNestPtr, kind: reqNestPointer},
+		{name: plugCheckNestVal, check: true, kind: reqNestValue},
+		{name: plugCheckNestPtr, check: true, kind: reqNestPointer},
 	} {
 		if err := reg.Register(p); err != nil {
 			panic(fmt.Sprintf("pc18 harness bug: cannot register %s: %v", p.name, err))
